@@ -296,7 +296,7 @@ fn sig_v(input: &Value) -> R {
 // ---------------------------------------------------------------- digests
 
 fn message(input: &Value) -> R {
-    let data = b(input, "data")?;
+    let data = if input.get("big").is_some() { b(input, "big")? } else { b(input, "data")? };
     Ok(ok(json!({ "digest": hx(EthereumMessage(&data).signing_message().0) })))
 }
 
